@@ -2149,3 +2149,49 @@ pub mod verif {
         })
     }
 }
+
+/// Verification hooks (feature `verif_hooks`): an intern table of the interpreter's own type that
+/// can be driven with caller-chosen hashes (to force collisions and probe chains at will).
+#[cfg(feature = "verif_hooks")]
+pub mod verif_strings {
+    use super::string_store::ObjStringStore;
+    use super::Vm;
+    use crate::memory::Root;
+    use crate::object::{ObjClass, ObjString};
+
+    pub struct Store {
+        inner: ObjStringStore,
+        class: Root<ObjClass>,
+    }
+
+    impl Store {
+        pub fn new(vm: &Vm) -> Store {
+            Store {
+                inner: ObjStringStore::new(),
+                class: vm.string_class.as_ref().expect("Expected Root.").clone(),
+            }
+        }
+
+        /// Address of the entry stored under (hash, text), if any.
+        pub fn get(&self, hash: u64, text: &str) -> Option<usize> {
+            self.inner.get((hash, text)).map(|s| s.as_gc().as_ptr() as usize)
+        }
+
+        /// The interpreter's interning step with a chosen hash: look up, insert when absent.
+        /// Returns the address of the entry and whether it was newly created.
+        pub fn intern(&mut self, hash: u64, text: &str) -> (usize, bool) {
+            if let Some(found) = self.get(hash, text) {
+                return (found, false);
+            }
+            let string = Root::new(ObjString::new(self.class.as_gc(), text, hash));
+            let address = string.as_gc().as_ptr() as usize;
+            self.inner.insert(string);
+            (address, true)
+        }
+
+        /// (text, cached hash) of the entry at `address` (as returned by `get`/`intern`).
+        pub fn read(&self, hash: u64, text: &str) -> Option<(String, u64)> {
+            self.inner.get((hash, text)).map(|s| (s.as_str().to_owned(), s.hash))
+        }
+    }
+}
